@@ -130,7 +130,7 @@ def gen(tier):
     opts.compressed = False
     opts.min_subsets = 2
     opts.max_subsets = 4 if tier == 'quick' else 6
-    opts.template = gtemplates.Opts(max_ids=18 if tier == 'quick' else 30, w_bitmap=6, w_rep=4)
+    opts.template = gtemplates.Opts(max_ids=18 if tier == 'quick' else 30, w_bitmap=6, w_rep=4, w_204=3, p_unclosed=(1, 3))
     return lambda ch: gmsg.gen_case(ch, opts)
 
 
